@@ -1,5 +1,7 @@
 import Mochi.Lemmas.Reader
+import Mochi.Lemmas.SessionFrame
 import Mochi.Props.C27
+import Mochi.Props.C07
 /-!
 # C28 — No client byte stream can crash the broker or disturb other clients
 
@@ -15,6 +17,14 @@ sequential broker M3 (`receivePacket`, `recvOn`) for what happens to a decoded p
 "Keeps running" is: no modelled Go panic site (raw index / slice expression) is reachable from the bytes
 of a connection — `attachClient` has no `recover()`, so a panic in a connection goroutine would end the
 process.  Memory exhaustion, goroutine leaks, scheduler starvation and runtime faults are not modelled.
+
+The broker-side theorems (second half of the file) are over M3 and `Model/Session.lean` (the glue from
+decoded packets of ANY type and from raw byte chunks into M3); they are frame theorems: who can change
+what.  `SessEq a b` (`Lemmas/BrokerFrame.lean`) says two client objects agree on everything except the
+five fields a PUBLISH delivered TO the client may change (`inflight`, `sendQuota`, `packetID`, `aliasOut`,
+`aliasCursor`).  Not covered (what keeps `C28_isolation` short of "the session of c' is untouched"): the
+topic index entries of the other client (M2's trie) — only the object's own `subs` list and its
+Clients-map entry are shown unchanged — and everything that is not sequential (M4).
 
 Finding F28 (`C28_size_before_body_counterexample`): the size test of `ReadFixedHeader` is
 `Remaining + 1 > MaximumPacketSize`; it counts one byte for the fixed header where the packet has
@@ -264,3 +274,109 @@ example : readFixedHeader 0 [0x30, 0xFF, 0xFF, 0xFF, 0x7F] = .ok { type := 3, re
   decide
 
 end Mochi.Reader
+
+/-! ## the broker: served or closed, and isolation (M3 + `Model/Session.lean`) -/
+
+namespace Mochi.Broker
+open Mochi.Topics Mochi.Session Mochi.Reader
+
+/-- **C28: served or closed** — one inbound packet on an open network connection `c` (client object `i`)
+    leaves the connection open, or a `closed c` output is emitted: never a half-dead connection. -/
+theorem C28_served_or_closed (s : Server) (c : Nat) (pk : InPk) (b : Bool) (i : Nat)
+    (hc : assocGet s.connOf c = some i) (hconn : (getObj s i).conn = c) (hin : (getObj s i).inline = false)
+    (hopen : (getObj s i).isOpen = true) :
+    (getObj (recvOn s c pk b).1 i).isOpen = true ∨ Out.closed c ∈ (recvOn s c pk b).2 :=
+  recvOn_served_or_closed' s c pk b i hc hconn hin hopen
+
+/-- … and when the handler returns an error (`receivePacket`'s error path: refused packet, protocol
+    violation, quota exceeded …) the connection IS closed -/
+theorem C28_error_closes (s : Server) (c : Nat) (pk : InPk) (b : Bool) (i : Nat) (code : Nat)
+    (hc : assocGet s.connOf c = some i) (hconn : (getObj s i).conn = c) (hin : (getObj s i).inline = false)
+    (hopen : (getObj s i).isOpen = true) (hst : (getObj s i).stopped = false)
+    (herr : (receivePacket s i pk).2.2 = some code) : Out.closed c ∈ (recvOn s c pk b).2 :=
+  recvOn_error_closes s c pk b i code hc hconn hin hopen hst herr
+
+/-- … and a served connection gets its required response: PINGREQ → PINGRESP (the other request types:
+    `Props/C07.lean`, handler by handler) -/
+theorem C28_served_ping (s : Server) (i : Nat) (hopen : (getObj s i).isOpen = true) :
+    ∃ rest, (receivePacket s i .pingreq).2.1 = .wrote (getObj s i).conn .pingresp :: rest :=
+  C07_pingreq s i hopen
+
+/-- **C28: isolation** — one inbound packet on connection `c` (object `i`) does not create or remove a
+    client object, does not touch the connection table, and leaves every OTHER client object `j`
+    unchanged up to the five delivery fields: in particular its `isOpen`, `stopped`, `subs`, `will`, `id`,
+    `ver`, receive quota and inbound aliases — whatever the packet is; and the Clients-map entry of every
+    other client id stays what it was (so no packet on `c` can take over or expire another client's
+    session; a CONNECT takeover is a different op, `connect`). -/
+theorem C28_isolation (s : Server) (c : Nat) (pk : InPk) (b : Bool) (i j : Nat)
+    (hc : assocGet s.connOf c = some i) (hij : j ≠ i) :
+    SessEq (getObj s j) (getObj (recvOn s c pk b).1 j) ∧
+    (recvOn s c pk b).1.objs.length = s.objs.length ∧
+    (recvOn s c pk b).1.connOf = s.connOf ∧
+    ((getObj s j).id ≠ (getObj s i).id →
+      assocGet (recvOn s c pk b).1.clients (getObj s j).id = assocGet s.clients (getObj s j).id) :=
+  ⟨recvOn_isolation s c pk b i j hc hij, recvOn_objs_length s c pk b, recvOn_connOf s c pk b,
+   fun hid => recvOn_clients_other s c pk b i _ hc (Ne.symm hid)⟩
+
+/-- the fields the property names, spelled out -/
+theorem C28_isolation_fields (s : Server) (c : Nat) (pk : InPk) (b : Bool) (i j : Nat)
+    (hc : assocGet s.connOf c = some i) (hij : j ≠ i) :
+    let s' := (recvOn s c pk b).1
+    (getObj s' j).isOpen = (getObj s j).isOpen ∧ (getObj s' j).stopped = (getObj s j).stopped ∧
+    (getObj s' j).subs = (getObj s j).subs ∧ (getObj s' j).will = (getObj s j).will ∧
+    (getObj s' j).id = (getObj s j).id ∧ (getObj s' j).conn = (getObj s j).conn ∧
+    (getObj s' j).recvQuota = (getObj s j).recvQuota := by
+  have h := recvOn_isolation s c pk b i j hc hij
+  exact ⟨h.isOpen.symm, h.stopped.symm, h.subs.symm, h.will.symm, h.id.symm, h.conn.symm, h.recvQuota.symm⟩
+
+/-- **C28, from bytes**: the same for a whole chunk of ARBITRARY BYTES arriving on connection `c` — read
+    by the reader model at the client's protocol version, every decoded packet of every type (second
+    CONNECT, AUTH and the server-only types included) handled as `receivePacket`/`processPacket` do, a
+    read error ending the connection as `attachClient` does: every other client object is unchanged up
+    to the delivery fields, no object appears or disappears, other ids keep their Clients-map entry. -/
+theorem C28_stream_isolation (cfg : Cfg) (s : Server) (c : Nat) (bytes : List Nat) (i j : Nat)
+    (hc : assocGet s.connOf c = some i) (hij : j ≠ i) :
+    SessEq (getObj s j) (getObj (feed cfg s c bytes).1 j) ∧
+    (feed cfg s c bytes).1.objs.length = s.objs.length ∧
+    (feed cfg s c bytes).1.connOf = s.connOf ∧
+    ((getObj s j).id ≠ (getObj s i).id →
+      assocGet (feed cfg s c bytes).1.clients (getObj s j).id = assocGet s.clients (getObj s j).id) :=
+  have h := feed_frame cfg s c bytes i hc
+  ⟨h.other j hij, h.len, h.connOf, fun hid => h.clients _ hid⟩
+
+/-- **C28, from bytes: served or closed** — after any chunk of bytes the connection is as open as it
+    was, or `closed c` was emitted -/
+theorem C28_stream_served_or_closed (cfg : Cfg) (s : Server) (c : Nat) (bytes : List Nat) (i : Nat)
+    (hc : assocGet s.connOf c = some i) (hconn : (getObj s i).conn = c) (hin : (getObj s i).inline = false)
+    (hopen : (getObj s i).isOpen = true) :
+    (getObj (feed cfg s c bytes).1 i).isOpen = true ∨ Out.closed c ∈ (feed cfg s c bytes).2 := by
+  rcases (feed_frame cfg s c bytes i hc).live_or_closed hin with ⟨h1, _⟩ | h
+  · exact Or.inl (h1.trans hopen)
+  · exact Or.inr (hconn ▸ h)
+
+/-! non-vacuity: two MQTT 5 clients `a` (connection 1, object 1) and `b` (connection 2, object 2) -/
+
+def twoClients : Server :=
+  (connect (connect (init {}) 1 { ver := 5, id := [97] }).1 2 { ver := 5, id := [98] }).1
+
+example : assocGet twoClients.connOf 1 = some 1 ∧ (getObj twoClients 1).conn = 1 ∧
+    (getObj twoClients 1).inline = false ∧ (getObj twoClients 1).isOpen = true ∧
+    (getObj twoClients 1).stopped = false ∧ (getObj twoClients 2).id ≠ (getObj twoClients 1).id := by
+  decide
+
+/-- the error path is inhabited: a PUBLISH with a wildcard topic name is refused (0x82) … -/
+example : (receivePacket twoClients 1 (.publish 0 false false 0 [97, 47, 35] [120] 0 none)).2.2 = some 0x82 := by
+  decide
+
+/-- … and, from bytes: client `a` sends a CONNACK (`20 02 00 00`): its connection is closed, `b` stays open -/
+example : Out.closed 1 ∈ (feed {} twoClients 1 [0x20, 2, 0, 0]).2 ∧
+    (getObj (feed {} twoClients 1 [0x20, 2, 0, 0]).1 2).isOpen = true := by
+  decide
+
+/-- a served chunk: PINGREQ + SUBSCRIBE `x` from `a`: PINGRESP and SUBACK written, connection open -/
+example : (feed {} twoClients 1 [0xC0, 0, 0x82, 7, 0, 1, 0, 0, 1, 120, 0]).2 =
+    [.wrote 1 .pingresp, .wrote 1 (.suback 1 [0])] ∧
+    (getObj (feed {} twoClients 1 [0xC0, 0, 0x82, 7, 0, 1, 0, 0, 1, 120, 0]).1 1).isOpen = true := by
+  decide
+
+end Mochi.Broker
